@@ -92,8 +92,9 @@ def gen(rng, tier, i):
                               'c_reuse': rng.random() < 0.5, 'sched': wavegen.gen_order_sched(rng), 'block': wavegen.gen_block(rng)})
         elif kind == 'dataset':
             if n_sets > 1:
-                mode = rng.choice([0, 1])
-                pairs.append({'kind': 'dataset', 'mode': mode, 'j': rng.randrange(n_sets), 'per_lane': [rng.randrange(n_sets) for _ in range(sims)], 'cls': rng.choice(['cpu', 'gpu'])})
+                mode = rng.choice([0, 1, 2])      # 2: mixed - some lanes take the global dataset (method 0), others their own (method 1)
+                pairs.append({'kind': 'dataset', 'mode': mode, 'j': rng.randrange(n_sets), 'per_lane': [rng.randrange(n_sets) for _ in range(sims)], 'cls': rng.choice(['cpu', 'gpu']),
+                              'methods': [rng.choice([0, 1]) for _ in range(sims)]})
     case['pairs'] = pairs
     lsims = rng.choice([1, 3, 8, 9, 13, 16, 20, 33, 300, 121, 127, 250, 255])
     n2 = rng.choice([lsims, lsims + 1, lsims + 8, 24, 40, 64, 65, 257])
@@ -279,6 +280,17 @@ def execute(case):
                 h1, o1 = wsim.run_config(built, case, dict(base, cls=p['cls'], dataset_only=j, simctl=None, seed=1), res, monitors=())
                 h2, o2 = wsim.run_config(built, case, dict(base, cls=p['cls'], simctl={'mode': 0}, seed=j), res, monitors=())
                 if not cmp_ports(res, 'dataset-selection-changes-result', f'global selection seed={j} vs dataset {j} alone ({p["cls"]})', o1, o2, ident): return res
+            elif p['mode'] == 2 and p.get('methods'):
+                j = p['j'] % nsets
+                meth = p['methods']
+                per = [x % nsets for x in p['per_lane']]
+                eff = [j if meth[l % len(meth)] == 0 else per[l % len(per)] for l in range(n)]      # the dataset each lane must end up with
+                h2, o2 = wsim.run_config(built, case, dict(base, cls=p['cls'], simctl={'mode': 1, 'per_lane': per, 'mode_per_lane': meth}, seed=j), res, monitors=())
+                res.probe('dataset_methods_mixed_across_lanes')
+                for ds in sorted(set(eff)):
+                    h1, o1 = wsim.run_config(built, case, dict(base, cls=p['cls'], dataset_only=ds, simctl=None, seed=1), res, monitors=())
+                    rel = [(l, l) for l in range(n) if eff[l] == ds]
+                    if not cmp_ports(res, 'dataset-selection-changes-result', f'methods {meth} / per-lane {per} / global {j} vs dataset {ds} alone ({p["cls"]})', o1, o2, rel): return res
             else:
                 per = [x % nsets for x in p['per_lane']]
                 h2, o2 = wsim.run_config(built, case, dict(base, cls=p['cls'], simctl={'mode': 1, 'per_lane': per}, seed=1), res, monitors=())
